@@ -426,6 +426,15 @@ def sec_real_types(rep):
                 v, detail = _real_run(dict(lo, TMC=tmc, MP=mp), dict(prDIS="NC", observables={f"{kind}_total": [{"x": 0.3, "Q2": 10.0}, {"x": np.float64(0.1), "Q2": 4}]}))
                 ok = not v.startswith("internal")
                 rep.add(ob_eval(f"C16/real-types/{kind}_total/TMC={tmc}/MP:{type(mp).__name__}/finite-or-explicit", ok, detail=f"{v}: {detail}", inputs={} if ok else {"kind": kind, "TMC": tmc, "MP": repr(mp), "observed": detail}, replay={"confirmed": True, "python": f"Runner(base_theory(PTO=0, PTODIS=0, TMC={tmc}, MP={mp!r}), {{'{kind}_total': [...]}}).get_result()"}))
+    # the two scale-variation switches are card entries like any other: every combination, at every
+    # order that has logarithms, returns a finite operator (real NNLO run of a light observable)
+    for ren in (True, False):
+        for fact in (True, False):
+            for pto in (1, 2):
+                rep.cases += 1
+                v, detail = _real_run(dict(PTO=pto, PTODIS=pto, FNS="ZM-VFNS", NfFF=4, RenScaleVar=ren, FactScaleVar=fact), dict(prDIS="EM", interpolation_xgrid=[1e-2, 0.1, 0.4, 0.7, 1.0], interpolation_polynomial_degree=2, observables={"F2_light": [{"x": 0.3, "Q2": 10.0}]}))
+                ok = v == "ok"
+                rep.add(ob_eval(f"C16/real-types/F2_light pto={pto}/RenScaleVar={ren},FactScaleVar={fact}/finite", ok, detail=f"{v}: {detail}", inputs={} if ok else {"PTO": pto, "RenScaleVar": ren, "FactScaleVar": fact, "observed": detail}, replay={"confirmed": True, "python": f"Runner(theory PTO={pto}, RenScaleVar={ren}, FactScaleVar={fact}, F2_light at x=0.3, Q2=10).get_result()"}))
     mw = H.base_theory()["MW"]
     invalid = {
         "x=0.0": {"x": 0.0, "Q2": 10.0}, "x=0": {"x": 0, "Q2": 10.0}, "x=np.float64(0)": {"x": np.float64(0.0), "Q2": 10.0}, "x=-0.1": {"x": -0.1, "Q2": 10.0},
